@@ -32,7 +32,7 @@ ASSUMPTIONS = [
     " an arccos argument rounds to 1+2e-16 (massless DPD zeta angles) are labelled and not asserted",
 ]
 BUDGET = {
-    "quick": {"examples": 160, "shards": 16, "cap_s": 150, "shrink_calls": 25, "shrink_s": 120, "case_timeout_s": 60},
+    "quick": {"examples": 192, "shards": 16, "cap_s": 150, "shrink_calls": 20, "shrink_s": 120, "case_timeout_s": 50},
     "thorough": {"examples": 2400, "shards": 16, "cap_s": 2400, "shrink_calls": 100, "shrink_s": 300, "case_timeout_s": 300},
 }
 
@@ -40,12 +40,14 @@ BUDGET = {
 def strategy(tier):
     thorough = tier == "thorough"
     rs = reaction_strategy(
-        n_final=(3, 3, 3, 3, 2, 4), max_topos=1, complete_helicities=True, allow_identical=False,
-        formalisms=("helicity", "helicity", "canonical-helicity"),
-        spin2_max=5 if thorough else 3, spin_k_max=2, max_transitions=96 if thorough else 24,
+        n_final=(3, 3, 3, 3, 2, 4) if thorough else (3, 3, 3, 3, 3, 2), max_topos=1, complete_helicities=True,
+        allow_identical=False, formalisms=("helicity", "helicity", "canonical-helicity"),
+        spin2_max=5 if thorough else 2, spin_k_max=2 if thorough else 1, max_transitions=96 if thorough else 18,
     )
     return st.fixed_dictionaries({
         "family": st.just("model"),
+        "spin1_budget": st.just(2 if thorough else 1),
+        "alignment": st.sampled_from(["axisangle", "axisangle", "dpd1", "dpd2", "dpd3"]),
         "reaction": rs,
         "event_seed": st.integers(0, 2**31 - 1),
         "coupling_seed": st.integers(0, 2**31 - 1),
@@ -97,13 +99,24 @@ def run_case(desc) -> Result:  # noqa: C901, PLR0912, PLR0914
     if desc["family"] == "spin_range":
         return run_spin_range(desc)
     rdesc = _no_massless_spin_ge1(desc["reaction"])
+    # all alignments are formulated for the same reaction: apply the axis-angle cost clamp first
+    from vp.gen.config import effective_reaction_desc  # noqa: PLC0415
+
+    rdesc = effective_reaction_desc(
+        rdesc, dict(DEFAULT_CONFIG, alignment="axisangle", axisangle_spin1_budget=desc.get("spin1_budget", 2))
+    )
     n = rdesc["n"]
-    alignments = ["none", "axisangle"] + (["dpd1", "dpd2", "dpd3"] if n == 3 else [])
+    choice = desc.get("alignment", "all")
+    if choice == "all":
+        alignments = ["none", "axisangle"] + (["dpd1", "dpd2", "dpd3"] if n == 3 else [])
+    else:  # one aligned model per case keeps a case affordable
+        alignments = ["none", choice if (n == 3 or not choice.startswith("dpd")) else "axisangle"]
+    labels_al = alignments[1:]
     models = {}
     prepared0 = None
-    labels = [f"n={n}", rdesc["formalism"]]
+    labels = [f"n={n}", rdesc["formalism"], *[f"align={a}" for a in labels_al]]
     for al in alignments:
-        prepared = prepare(rdesc, dict(DEFAULT_CONFIG, alignment=al))
+        prepared = prepare(rdesc, dict(DEFAULT_CONFIG, alignment=al, axisangle_spin1_budget=desc.get("spin1_budget", 2)))
         if prepared is None:
             return skip("no_transitions")
         if prepared0 is None:
@@ -134,23 +147,22 @@ def run_case(desc) -> Result:  # noqa: C901, PLR0912, PLR0914
     total = t0.states[init_id].particle.mass
     momenta = generate_events(topo, masses, total, 8, desc["event_seed"], edge=0.05)
 
-    values = {}
-    coupling_values = None
+    evaluators = {}
     for al, (prepared, model) in models.items():
-        ev = under_test(f"lambdify[{al[:3]}]", ModelEvaluator, model, prepared.id_offset)
-        rng = np.random.default_rng(desc["coupling_seed"])
-        params = ev.draw_parameters(rng)
-        by_name = {s.name: v for s, v in params.items()}
-        if coupling_values is None:
-            coupling_values = by_name
-        else:
-            if set(by_name) != set(coupling_values):
-                return violation(
-                    "aligned_model_has_other_parameters", nontrivial, labels, alignment=al,
-                    only_here=sorted(set(by_name) - set(coupling_values))[:4],
-                    missing=sorted(set(coupling_values) - set(by_name))[:4],
-                )
-            params = {s: coupling_values[s.name] for s in params}
+        evaluators[al] = under_test(f"lambdify[{al[:3]}]", ModelEvaluator, model, prepared.id_offset)
+    # the same value for equally named parameters in all models (a model may lack parameters
+    # whose terms vanish identically after unfolding)
+    names = sorted({s.name for ev in evaluators.values() for s in ev.parameters})
+    rng = np.random.default_rng(desc["coupling_seed"])
+    by_name = {}
+    for name in names:
+        z = complex(rng.uniform(-1, 1), rng.uniform(-1, 1))
+        by_name[name] = z
+    values = {}
+    for al, ev in evaluators.items():
+        params = {
+            s: (by_name[s.name] if s.name.startswith(("C_", "H_")) else ev.defaults[s]) for s in ev.parameters
+        }
         values[al] = under_test(f"evaluate[{al[:3]}]", ev, momenta, params)
     ref = values["none"]
     if not np.all(np.isfinite(ref)):
